@@ -237,6 +237,31 @@ Definition SrcTie_case (c : c05session) : N :=
         "theorems": ["c08_source_is_model", "c08_source_neutral"],
         "eval": None,     # no evaluation glue: a broken tie is recorded, the hand model and the correspondence decide
     },
+    "C18": {
+        "targets": ["length/length.go:" + f for f in ("StringBytes", "StringRunes", "StringCells", "Lines",
+                                                        "LongestLineBytes", "LongestLineRunes", "LongestLineCells")],
+        "generated": "Generated/LengthSrc.v",
+        "proofs": ["Proofs/LengthSrcTie.v"],
+        "theorems": ["c18_source_is_model", "c18_source_lines_lossless", "c18_source_longest"],
+        # the translated Lines / LongestLine* on the case's string against what the real
+        # functions returned; runewidth.StringWidth = the run's oracle tables
+        "eval": """From Tab Require Import Run.Glue Run.C18Run Base.GoSem.
+From SrcTie Require Import Generated.LengthSrc.
+Definition fZ_eqb (a : fres Z) (n : nat) : bool :=
+  match a with Done (Ok z) => Z.eqb z (Z.of_nat n) | _ => false end.
+Definition SrcTie_case (c : c18_in * res c18_obs) : N :=
+  let '(i, ob) := c in
+  match ob with
+  | Ok o =>
+      let W := fun x => Z.of_nat (string_cells (seg_of (i_seg i)) (rw_of (i_rw i)) x) in
+      code ((match src_Lines (i_s i) with Done (Ok ls) => lines_eqb ls (o_lines o) | _ => false end)
+            && fZ_eqb (src_LongestLineBytes (i_s i)) (mB (o_long o))
+            && fZ_eqb (src_LongestLineRunes (i_s i)) (mR (o_long o))
+            && fZ_eqb (src_LongestLineCells W (i_s i)) (mC (o_long o))) true
+  | _ => 0%N
+  end.
+""",
+    },
 }
 TIE_LP = "SrcTie"    # logical path of the fresh copies
 
